@@ -195,6 +195,10 @@ func regoC01(c *checkCtx) {
 	} else {
 		regoDifferential(c, progs, 23, 12)
 	}
+	// what the model of the policy cannot see is how the real pipeline reads numbers from the data text
+	// (decoder settings, number formatting on the way into the engine): every program with non-integer or
+	// very large bounds goes through the real entry point on graphs spread over its scope
+	regoDifferential(c, regosym.FamilyFloatBounds(thorough), 1, 64)
 }
 
 // regoDifferential validates the Rego model itself (not the property): for every step-th program,
